@@ -350,6 +350,13 @@ func VH_Upgrade(a []int) {
 	w := &vUWorld{}
 	shape := sym.Pick("selector", shapes)
 	sts := vBuiltinSet(shape)
+	if sym.Pick("scaledToZero", 2) == 1 {
+		// a set that was scaled to zero before the upgrade: no replicas, all counters zero
+		zero := int32(0)
+		sts.Spec.Replicas = &zero
+		sts.Status.Replicas, sts.Status.ReadyReplicas, sts.Status.CurrentReplicas, sts.Status.UpdatedReplicas = 0, 0, 0, 0
+		sym.Cover("set scaled to zero")
+	}
 	if shape == 3 {
 		sym.Disc("expression-only-selector")
 	} else if shape == 2 {
@@ -431,7 +438,8 @@ func VH_Upgrade(a []int) {
 			sym.Assert(*got.Spec.Replicas == *want.Spec.Replicas && got.Spec.ServiceName == want.Spec.ServiceName &&
 				got.Spec.Template.Spec.Containers[0].Image == "nginx" && got.Spec.UpdateStrategy.RollingUpdate != nil &&
 				*got.Spec.UpdateStrategy.RollingUpdate.Partition == 1 && got.Spec.Selector != nil, "C17", "same spec")
-			sym.Assert(got.Status.Replicas == 3 && got.Status.ReadyReplicas == 2 && got.Status.CurrentReplicas == 1 && got.Status.UpdatedReplicas == 2 &&
+			ws := sts.Status
+			sym.Assert(got.Status.Replicas == ws.Replicas && got.Status.ReadyReplicas == ws.ReadyReplicas && got.Status.CurrentReplicas == ws.CurrentReplicas && got.Status.UpdatedReplicas == ws.UpdatedReplicas &&
 				got.Status.CurrentRevision == "web-r0" && got.Status.UpdateRevision == "web-r1" && got.Status.ObservedGeneration == 4, "C17", "same status")
 		}
 		for _, r := range op.revsAtDelete {
@@ -450,7 +458,7 @@ func VH_Upgrade(a []int) {
 	}
 	if done {
 		// final state equals that of an uninterrupted run
-		sym.Assert(len(w.adv) == 1 && w.adv[0].Status.Replicas == 3 && *w.adv[0].Spec.Replicas == 3, "C17", "final Advanced object carries spec and status of the built-in set")
+		sym.Assert(len(w.adv) == 1 && w.adv[0].Status.Replicas == sts.Status.Replicas && *w.adv[0].Spec.Replicas == *sts.Spec.Replicas, "C17", "final Advanced object carries spec and status of the built-in set")
 		for _, r := range w.revs {
 			if strings.HasPrefix(r.Name, "web-") {
 				sym.Assert(r.Labels[UpgradeToAdvancedStatefulSetAnn] == "web", "C17", "final revisions carry the upgrade marker")
